@@ -290,6 +290,11 @@ func doCheck(p *propCfg, tier string) int {
 		}
 	}
 	evPath := filepath.Join(verifRoot, "evidence", p.ID+".json")
+	if d := os.Getenv("VERIF_EVIDENCE_DIR"); d != "" && os.Getenv("VERIF_REPO") != "" {
+		// a run against a scratch copy of the repository (development only) leaves the committed evidence alone
+		os.MkdirAll(d, 0o755)
+		evPath = filepath.Join(d, p.ID+".json")
+	}
 	os.Remove(evPath)
 	dir, err := scratchDir()
 	if err != nil {
